@@ -49,9 +49,44 @@ static int run(const char *line)
         return 0;
 }
 
+/* long variable lists (per-command summaries narrower than the list): every single position write-only among 18 and 20
+ * variables, then every pair around the 8/16 boundaries; READ by request and by event, write-only contents non-zero */
+static int many_vars(void)
+{
+        for (int nv = 17; nv <= 20; nv++)
+                for (int a = 0; a < nv; a++)
+                        for (int b = a; b < nv; b++) {
+                                if (b != a && !((a == 7 || a == 8 || a == 15 || a == 16) || (b == 15 || b == 16 || b == nv - 1))) continue;
+                                struct wcmd *c = sw_table(1);
+                                strcpy(c[0].name, "+A");
+                                c[0].hmask = 0; c[0].nvar = (uint8_t)nv;
+                                for (int i = 0; i < nv; i++) {
+                                        memset(&c[0].var[i], 0, sizeof c[0].var[i]);
+                                        c[0].var[i].type = T[i % 5]; c[0].var[i].size = (uint8_t)(i % 5 == 3 ? 2 : i % 5 == 4 ? 3 : 1);
+                                        c[0].var[i].access = (i == a || i == b) ? CAT_VAR_ACCESS_WRITE_ONLY : (i & 1) ? CAT_VAR_ACCESS_READ_ONLY : CAT_VAR_ACCESS_READ_WRITE;
+                                }
+                                W.wo_fill = 'g';
+                                sw_caps(150, (a + b) % 3);
+                                W.line_max = 160; W.mon = P_ALL;
+                                W.nev = 1; W.ev[0].cmd = 0; W.ev[0].type = CAT_CMD_TYPE_READ;
+                                world_build();
+                                snprintf(SW.extra, sizeof SW.extra, "family=many-vars nvar=%d write-only=%d,%d", nv, a, b);
+                                SW.cases++;
+                                world_init();
+                                static const uint8_t rd[] = "AT+A?\n", none[1] = {0};
+                                if (sw_feed(rd, 6, NULL)) return 1;
+                                mcx_violation_clear();
+                                do_trigger(0, 0);
+                                if (sw_feed(none, 0, NULL)) return 1;
+                        }
+        W.wo_fill = 0;
+        return 0;
+}
+
 int main(int argc, char **argv)
 {
         sw_init(argc, argv, "access");
+        if (SW.shard == 0 && many_vars()) { char tg[64]; snprintf(tg, sizeof tg, "access-%d", SW.shard); return sw_finish(tg); }
         int idx = 0;
         char line[300];
         static const int FILLS[4] = {0, 0xA5, 'g', '"'};
